@@ -1,5 +1,5 @@
 // Command instr generates, from the CURRENT sources of the repository under test, a `go build -overlay` file that
-// (a) puts map iteration order in package deb under explorer control,
+// (a) puts the iteration order of every `for ... range <map>` of the module under explorer control,
 // (b) turns every use of a package-level variable of the module into a scheduling point,
 // (c) inserts a yield at every loop iteration of the parser packages,
 // (d) routes the os.* file-system calls of packages control and internal through verifhook,
@@ -96,8 +96,8 @@ func main() {
 					n := c.Node()
 					switch x := n.(type) {
 					case *ast.RangeStmt:
-						// (a) map ranges in package deb
-						if short == "deb" {
+						// (a) map ranges in every package of the module (today only package deb has any)
+						if true {
 							if tv, ok := p.TypesInfo.Types[x.X]; ok {
 								if _, isMap := tv.Type.Underlying().(*types.Map); isMap {
 									site++
